@@ -125,6 +125,9 @@ def programs(rng, thorough):
     add("seq-many-spinning-tests", many, "1")
     add("seq-many-recursing-tests", "fun rec(n: Int): Int { 1 + rec(n + 1) }\n" + "".join("test r%d { rec(0) }\n" % i for i in range(12))
         + "fun spin() { while True {} }\n" + "".join("test s%d { spin() }\n" % i for i in range(12)), "2")
+    # --- blocking built-ins: a sandboxed program that waits for input must be refused, not block
+    add("blocking-read-line", "", "let l = read_line()\nl")
+    add("blocking-read-line-in-loop", "", "let i = 0\nwhile i < 3 {\n i += 1\n read_line()\n}\ni")
     # --- terminating controls (the harness must accept them)
     add("control-terminates", "", "let i = 0\nwhile i < 100 { i += 1 }\ni", False)
     add("control-error", "", "1 / 0", False)
@@ -170,12 +173,20 @@ def run_one(exe, mode, defs, body, timeout):
         env = dict(os.environ)
         env["RUST_BACKTRACE"] = "0"
         t0 = time.time()
+        stdin, keep_open = subprocess.DEVNULL, None
+        if "read_line" in body:
+            # a blocking built-in: stdin is a pipe whose writer stays silent and open for the whole run
+            rfd, keep_open = os.pipe()
+            stdin = rfd
         try:
-            p = subprocess.run(cmd, stdin=subprocess.DEVNULL, capture_output=True, timeout=timeout, cwd=d, env=env,
+            p = subprocess.run(cmd, stdin=stdin, capture_output=True, timeout=timeout, cwd=d, env=env,
                                preexec_fn=limit_memory)
             rc, out, err, to = p.returncode, p.stdout, p.stderr, False
         except subprocess.TimeoutExpired as e:
             rc, out, err, to = 124, e.stdout or b"", e.stderr or b"", True
+        if keep_open is not None:
+            os.close(keep_open)
+            os.close(stdin)
         full = out.decode("utf-8", "replace")
         lines = [l for l in full.strip().split("\n") if l.strip()]
         last = None
